@@ -78,7 +78,7 @@ CHECKS = {
     "C12": dict(
         engine=E3 + " + " + E1, category="model_checking", design="§4 C12",
         technique="explicit-state BFS over write/overwrite/append/read histories on real HDF5 files with a reference file model (state = model content, asserted equal to the file in every state), plus exhaustive enumeration of batch-read selectors",
-        text="Breadth-first search to depth 3 (quick) / 8 (thorough: 583 states, 20 034 transitions) over 63 operations per state (11 tables x 4 write modes by name, 4 tables x 4 modes through an open h5py.File, read by name / by file object, batch read) on a real file per state; every "
+        text="Breadth-first search to depth 3 (quick) / 8 (thorough: 583 states, 20 034 transitions) over 67 operations per state (12 tables x 4 write modes by name, 4 tables x 4 modes through an open h5py.File, read by name / by file object, batch read) on a real file per state; every "
              "transition checks accept/refuse verdict, byte-identity of the file after a refusal and the full content after acceptance. Batch reads: "
              "every (start, stop, step), every index array of length<=3, scripted random reads x column subsets x unit requests; all columns in reversed / rotated order. The same write/read operations also go through an open h5py.File, append+overwrite is a fourth write mode, and a second sample table in a group of the same file must survive appends.",
         note="None-vs-value t_ref appends are 'either'. Trusts h5py/PyTables/astropy I/O.",
@@ -103,7 +103,7 @@ CHECKS = {
     "C10": dict(
         engine=E3 + " + " + E2, category="model_checking", design="§4 C10",
         technique="exhaustive enumeration of call histories on one TheJoker, each executed three times (equal seeds twice, different global random state once) with bitwise output comparison and global-state probes; pool-schedule enumeration; forced-collision stream test",
-        text="All histories to depth 2/3 over 7 API operations (incl. prior samples by count, both paths, iterative sampler, prior.sample) are run "
+        text="All histories to depth 2/3 over 8 API operations (incl. prior samples by count, both paths, iterative sampler, prior.sample with and without linear parameters) are run "
              "from equal seeds twice and once with different numpy/Python global seeds: outputs bitwise equal per step, global states untouched, "
              "different seed changes the output; file-path operations are bitwise equal across 8 modelled pool schedules and real MultiPool(2); "
              "identical always-accepted rows in different batches and repeated calls never repeat a linear draw; no value drawn by one call of a history re-appears in a later call; the same histories in child interpreters with other PYTHONHASHSEEDs give identical digests; one large request never repeats a draw.",
